@@ -777,13 +777,13 @@ func c18DisableScope(c *Ctx, pk *packages.Package) {
 		c.Ob(rule, inst, pos, len(diffs) == 0, true, "%s-option consumer evaluated on %d rule shapes; deviations from the scope table: %v", side, n, diffs)
 	}
 	// predicates extracted into package helpers are evaluated through their bodies
-	bfInline = func(call *ast.CallExpr) (*ast.BlockStmt, *types.Info) {
+	bfInline = func(call *ast.CallExpr) (*ast.FuncDecl, *types.Info) {
 		fn := Callee(info, call)
 		if fn == nil || fn.Pkg() != pk.Types || fn.Name() == "fileMatchConfig" {
 			return nil, nil
 		}
 		if d := p.DeclOf(fn); d != nil && d.Decl.Body != nil {
-			return d.Decl.Body, d.Info()
+			return d.Decl, d.Info()
 		}
 		return nil, nil
 	}
